@@ -42,6 +42,10 @@ def run(prog: Program, rep: Report, tier: str):
     # (inside the wrapper's function), not once at construction, or training fills the other triangle
     from .c07 import rule_tri
     rule_tri(prog, rep, R="C01.triangular")
+    # LeakyTanh's two branches are mutually inverse only while the tail slope and intercept are the tangent line at
+    # max_val: they are constants derived from max_val (Python floats), not separately trainable arrays
+    from .c07 import rule_leaky_ctor
+    rule_leaky_ctor(prog, rep, R="C01.tangent")
     if tier == "thorough":
         from ..audit import audit_c01
         audit_c01(prog, rep)
